@@ -65,3 +65,13 @@ package sender
 //@ site call Process assert caller_sqe == sqe
 //@ site loop 1 backedge assert itercalls("Process") == 1
 //@ site return assert !ok
+
+// Enqueue accepts a submission exactly when it was put on the queue (C12: a submission reported accepted is
+// processed and answered by the worker; one reported refused is answered with queue-full by the caller; never
+// both, never neither).
+//@ func (*Sender).Enqueue
+//@ props C12
+//@ nopanic C13
+//@ requires s != nil && s.sq != nil && !closed(s.sq)
+//@ ensures result == (sends(s.sq) == 1)
+//@ ensures sends(s.sq) <= 1
